@@ -1,5 +1,6 @@
 (* GENERATED from the repository working tree by translator/plugins/task.py - do not edit *)
-From Coq Require Import ZArith Bool.
+From Coq Require Import ZArith Bool List.
+Import ListNotations.
 Open Scope Z_scope.
 
 (* len(self.results_buffer) >= NUM_BUFFERED_RESULTS *)
@@ -42,3 +43,30 @@ Definition as_ret_fail (v : bool * bool) : bool * bool :=
 (* return Result(any_passed, all_passed) *)
 Definition as_ret_end (v : bool * bool) : bool * bool :=
   let '(any_passed, all_passed) := v in (any_passed, all_passed).
+
+(* if self.hint: <hint pre-check> *)
+Definition searchdef_run_hint_gate (has_hint : bool) (npatterns : Z) : bool :=
+  has_hint.
+(* if ret: break *)
+Definition searchdef_run_leaves_loop (matched : bool) : bool := matched.
+
+(* not isinstance(pattern, list): ... *)
+Definition searchdef_patterns {P C : Type} (compile : P -> C) (is_list : bool)
+    (single : P) (many : list P) : list C :=
+  if (negb is_list) then [compile single] else map compile many.
+(* self.hint = hint; if hint: self.hint = re.compile(hint) *)
+Definition searchdef_hint_compiled (hint_truthy : bool) : bool := hint_truthy.
+
+(* return {c.id: c for c in self._constraints} - the items inserted, in order *)
+Definition searchdef_constraints_items {C : Type} (cid : C -> Z) (given : list C)
+    : list (Z * C) := map (fun c => (cid c, c)) given.
+(* SearchDefBase.id is a cached_property: computed once per object *)
+Definition searchdef_id_cached : bool := true.
+
+(* self.results_buffer = [] *)
+Definition task_initial_buffer_len : Z := 0.
+(* if decode_errors: self.decode_kwargs['errors'] = decode_errors *)
+Definition task_passes_decode_errors (decode_errors_truthy : bool) : bool := decode_errors_truthy.
+(* if results_queue is not None and results_collection is not None: raise *)
+Definition resultsmanager_rejects (queue_given collection_given : bool) : bool :=
+  (queue_given && collection_given).
